@@ -158,3 +158,206 @@ Proof.
   destruct (ast_run_cinv md n sched _ (ast_init_cinv n progs)) as [H1 H2]. rewrite H1.
   etransitivity; [|exact H2]. apply ast_count_le. intros pc. destruct pc; cbn; congruence.
 Qed.
+
+(* ------------------------------------------------------------------ ownership *)
+Ltac ast_eqb :=
+  repeat match goal with
+  | H : context [?a =? ?b] |- _ => destruct (Nat.eqb_spec a b); [subst|]
+  | |- context [?a =? ?b] => destruct (Nat.eqb_spec a b); [subst|]
+  | H : context [?a <? ?b] |- _ => destruct (Nat.ltb_spec a b)
+  | |- context [?a <? ?b] => destruct (Nat.ltb_spec a b)
+  end.
+
+Ltac ast_norm := unfold ast_pc_of, ast_town, ast_aown in *; ast_cbn;
+  rewrite ?ast_upd_nth, ?ast_snoc_nth, ?ast_upd_length, ?app_length in *; ast_cbn.
+
+Lemma ast_some_lt {A B} (f : A -> B) l t w : option_map f (nth_error l t) = Some w -> t < length l.
+Proof. destruct (nth_error l t) eqn:E; [intros _; apply nth_error_Some; congruence|discriminate]. Qed.
+
+Ltac ast_bounds :=
+  repeat match goal with
+  | H : option_map _ (nth_error ?l ?t) = Some _ |- _ =>
+      lazymatch goal with
+      | _ : t < length l |- _ => fail
+      | _ => pose proof (ast_some_lt _ _ _ _ H)
+      end
+  end.
+
+Ltac ast_fin :=
+  ast_bounds; ast_eqb; try lia;
+  repeat match goal with
+  | |- context [nth_error ?l ?t] => let E := fresh "E" in destruct (nth_error l t) eqn:E; rewrite ?E in *
+  end; ast_cbn; cbn in *; try congruence; try lia.
+
+Ltac ast_thr_clause Eth O1 O4 I1 I4 :=
+  let i := fresh "i" in let pc0 := fresh "pc0" in let x := fresh "x" in
+  let H1 := fresh "H1" in let H2 := fresh "H2" in
+  intros i pc0 x H1 H2; ast_norm; ast_eqb;
+  try (rewrite Eth in H1; ast_cbn; injection H1 as <-; ast_cbn);
+  try discriminate; try (injection H2 as <-);
+  try (pose proof (I1 _ _ _ H1 H2) as J1; unfold ast_town in J1);
+  try (pose proof (I4 _ _ _ H1 H2) as J4; unfold ast_aown in J4);
+  try (specialize (O1 _ eq_refl); unfold ast_town in O1);
+  try (specialize (O4 _ eq_refl); unfold ast_aown in O4);
+  ast_fin.
+
+Lemma ast_nodup_snoc {A} (l : list A) x : NoDup l -> ~ In x l -> NoDup (l ++ [x]).
+Proof.
+  intros H Hn. induction H as [|y l Hy H IH]; cbn; [constructor; [intros []|constructor]|].
+  constructor.
+  - intros Hi. apply in_app_or in Hi. destruct Hi as [Hi|[->|[]]]; [contradiction|apply Hn; left; reflexivity].
+  - apply IH. intros Hi. apply Hn. right. exact Hi.
+Qed.
+
+Ltac ast_prep_tchan I2 I3 :=
+  try match goal with Hq : ast_tchan ?s = ?h :: ?l |- _ =>
+    let F1 := fresh "F1" in let F2 := fresh "F2" in let F3 := fresh "F3" in let F4 := fresh "F4" in
+    pose proof (I2 h) as F4; try rewrite Hq in F4; specialize (F4 (or_introl eq_refl)); unfold ast_town in F4;
+    assert (F2 : ~ In h l) by (try rewrite Hq in I3; inversion I3; assumption);
+    assert (F3 : NoDup l) by (try rewrite Hq in I3; inversion I3; assumption);
+    assert (F1 : forall x, In x l -> In x (h :: l) /\ x <> h)
+      by (intros x Hx; split; [right; exact Hx|intros ->; contradiction])
+  end.
+Ltac ast_prep_ichan I5 I6 :=
+  try match goal with Hq : ast_ichan ?s = ?h :: ?l |- _ =>
+    let F1 := fresh "G1" in let F2 := fresh "G2" in let F3 := fresh "G3" in let F4 := fresh "G4" in
+    pose proof (I5 h) as F4; try rewrite Hq in F4; specialize (F4 (or_introl eq_refl)); unfold ast_aown in F4;
+    assert (F2 : ~ In h l) by (try rewrite Hq in I6; inversion I6; assumption);
+    assert (F3 : NoDup l) by (try rewrite Hq in I6; inversion I6; assumption);
+    assert (F1 : forall x, In x l -> In x (h :: l) /\ x <> h)
+      by (intros x Hx; split; [right; exact Hx|intros ->; contradiction])
+  end.
+
+Ltac ast_chan_clause O1 O4 I2 I5 :=
+  let x := fresh "x" in let Hin := fresh "Hin" in
+  intros x Hin;
+  try (apply in_app_or in Hin; destruct Hin as [Hin|[<-|[]]]);
+  try match goal with F : forall y, In y ?l -> In y _ /\ y <> _ |- _ =>
+        match type of Hin with In _ l => destruct (F _ Hin) as [Hin0 Hne] end end;
+  try (pose proof (I2 _ Hin) as J2; unfold ast_town in J2);
+  try (pose proof (I5 _ Hin) as J5; unfold ast_aown in J5);
+  try match goal with Hin0 : In _ (_ :: _) |- _ => pose proof (I2 _ Hin0) as J2'; unfold ast_town in J2' end;
+  try match goal with Hin0 : In _ (_ :: _) |- _ => pose proof (I5 _ Hin0) as J5'; unfold ast_aown in J5' end;
+  try (specialize (O1 _ eq_refl); unfold ast_town in O1);
+  try (specialize (O4 _ eq_refl); unfold ast_aown in O4);
+  ast_norm; ast_fin.
+
+Ltac ast_nodup_clause O1 O4 I2 I5 :=
+  apply ast_nodup_snoc; [assumption|];
+  let Hin := fresh "Hin" in intros Hin;
+  try (pose proof (I2 _ Hin) as J2; unfold ast_town in J2);
+  try (pose proof (I5 _ Hin) as J5; unfold ast_aown in J5);
+  try (specialize (O1 _ eq_refl); unfold ast_town in O1);
+  try (specialize (O4 _ eq_refl); unfold ast_aown in O4);
+  congruence.
+
+Ltac ast_alen_clause O4 I7 :=
+  let a := fresh "a" in let x := fresh "x" in let Hx := fresh "Hx" in
+  intros a x Hx; ast_norm;
+  try (specialize (O4 _ eq_refl); unfold ast_aown in O4);
+  unfold ast_att_chan in *;
+  ast_eqb; try lia;
+  repeat match type of Hx with context [nth_error ?l ?t] =>
+    let E := fresh "E" in destruct (nth_error l t) eqn:E; rewrite ?E in * end;
+  cbn in Hx; try discriminate; try (injection Hx as <-);
+  try (eapply I7; eassumption);
+  try (left; reflexivity);
+  match goal with E : nth_error _ _ = Some ?x0 |- _ =>
+    let K := fresh "K" in let K1 := fresh "K1" in let K2 := fresh "K2" in
+    destruct (I7 _ _ E) as [K|[K1 K2]]; cbn in *;
+    first [ left; congruence | right; split; congruence
+          | match goal with Hq : ata_chan _ = _ :: ?r |- _ => rewrite Hq in *; destruct r; cbn in *; [left; reflexivity|lia] end
+          | congruence ]
+  end.
+
+Lemma ast_step_inv md n s tid hint : ast_inv s -> ast_inv (fst (fst (ast_step md n s tid hint))).
+Proof.
+  intros Inv. unfold ast_step. destruct (nth_error (ast_thr s) tid) as [th|] eqn:Eth; [|exact Inv].
+  destruct th as [pc prog hs]. unfold ast_step_pc. cbn [ath_pc ath_prog ath_handles].
+  pose proof Inv as [I1 I2 I3 I4 I5 I6 I7].
+  pose proof (I1 tid pc) as O1. pose proof (I4 tid pc) as O4.
+  unfold ast_pc_of in O1, O4. rewrite Eth in O1, O4. cbn [option_map ath_pc] in O1, O4.
+  specialize (fun t => O1 t eq_refl). specialize (fun a => O4 a eq_refl).
+  destruct pc; cbn [ast_pc_task ast_pc_att] in O1, O4;
+    repeat first [progress (unfold ast_wait_ctx; ast_cbn) | match goal with
+    | |- context [match ?x with _ => _ end] => destruct x eqn:?
+    end]; try exact Inv.
+  all: ast_prep_tchan I2 I3; ast_prep_ichan I5 I6; constructor; ast_cbn; auto.
+  all: try (ast_thr_clause Eth O1 O4 I1 I4; fail).
+  all: try (ast_chan_clause O1 O4 I2 I5; fail).
+  all: try (ast_nodup_clause O1 O4 I2 I5; fail).
+  all: try (ast_alen_clause O4 I7; fail).
+Qed.
+
+Lemma ast_init_pcs n progs i pc :
+  ast_pc_of (ast_init n progs) i = Some pc -> pc = AstIdle \/ pc = AstDStart \/ pc = AstIStart.
+Proof.
+  unfold ast_pc_of. cbn [ast_init ast_thr]. destruct (nth_error _ i) as [th|] eqn:E; [|discriminate].
+  cbn. intros [= <-]. apply nth_error_In in E. apply in_app_or in E. destruct E as [E|E].
+  - apply in_map_iff in E. destruct E as [p [<- _]]. left. reflexivity.
+  - apply in_app_or in E. destruct E as [E|E]; apply repeat_spec in E; subst; cbn; auto.
+Qed.
+
+Lemma ast_init_inv n progs : ast_inv (ast_init n progs).
+Proof.
+  constructor.
+  - intros i pc t H1 H2. destruct (ast_init_pcs _ _ _ _ H1) as [->|[->| ->]]; discriminate.
+  - intros t [].
+  - constructor.
+  - intros i pc t H1 H2. destruct (ast_init_pcs _ _ _ _ H1) as [->|[->| ->]]; discriminate.
+  - intros t [].
+  - constructor.
+  - intros a x H. destruct a; discriminate.
+Qed.
+
+Lemma ast_run_inv md n sched : forall s, ast_inv s -> ast_inv (ast_run md n s sched).
+Proof.
+  induction sched as [|[tid h] r IH]; intros s H; [exact H|]. cbn [ast_run fold_left]. apply IH.
+  unfold ast_next. cbn [fst snd]. apply ast_step_inv. exact H.
+Qed.
+
+Definition ast_reach (md : ast_mode) (n : nat) (progs : list (list ast_op)) (s : ast_state) : Prop :=
+  exists sched, s = ast_run md n (ast_init n progs) sched.
+
+Lemma ast_reach_inv md n progs s : ast_reach md n progs s -> ast_inv s.
+Proof. intros [sched ->]. apply ast_run_inv. apply ast_init_inv. Qed.
+
+(* a task is never held by two threads: the client about to enqueue it, or the ONE dispatcher running it *)
+Lemma ast_steps_task_single_holder md n progs s i j pci pcj t :
+  ast_reach md n progs s ->
+  ast_pc_of s i = Some pci -> ast_pc_task pci = Some t ->
+  ast_pc_of s j = Some pcj -> ast_pc_task pcj = Some t -> i = j.
+Proof.
+  intros R Hi Ti Hj Tj. pose proof (ast_reach_inv _ _ _ _ R) as Inv.
+  pose proof (ai_tthr _ Inv _ _ _ Hi Ti) as A. pose proof (ai_tthr _ Inv _ _ _ Hj Tj) as B. congruence.
+Qed.
+
+(* a held task is not in the task channel as well *)
+Lemma ast_steps_task_not_queued md n progs s i pci t :
+  ast_reach md n progs s -> ast_pc_of s i = Some pci -> ast_pc_task pci = Some t -> ~ In t (ast_tchan s).
+Proof.
+  intros R Hi Ti Hin. pose proof (ast_reach_inv _ _ _ _ R) as Inv.
+  pose proof (ai_tthr _ Inv _ _ _ Hi Ti) as A. pose proof (ai_tchan _ Inv _ Hin) as B. congruence.
+Qed.
+
+(* the per-attempt channel never holds more than one message ... *)
+Lemma ast_steps_attempt_chan_le1 md n progs s a x :
+  ast_reach md n progs s -> nth_error (ast_atts s) a = Some x -> length (ata_chan x) <= 1.
+Proof.
+  intros R Hx. destruct (ai_alen _ (ast_reach_inv _ _ _ _ R) _ _ Hx) as [->|[_ ->]]; cbn; lia.
+Qed.
+
+(* ... and the inner worker's send on it never blocks *)
+Lemma ast_steps_inner_send_never_blocks md n progs s tid th a v e d :
+  ast_reach md n progs s -> nth_error (ast_thr s) tid = Some th -> ath_pc th = AstISend a v e d ->
+  ast_is_blocked md n s tid = false.
+Proof.
+  intros R Hth Hpc. pose proof (ast_reach_inv _ _ _ _ R) as Inv.
+  assert (Ho : ast_aown s a = Some (AwThread tid)).
+  { apply (ai_athr _ Inv tid (AstISend a v e d)); [unfold ast_pc_of; rewrite Hth; cbn; congruence|reflexivity]. }
+  unfold ast_aown in Ho. destruct (nth_error (ast_atts s) a) as [x|] eqn:Ex; [|discriminate].
+  cbn in Ho. injection Ho as Ho.
+  destruct (ai_alen _ Inv _ _ Ex) as [Hc|[Hg _]]; [|congruence].
+  unfold ast_is_blocked, ast_step. rewrite Hth. unfold ast_step_pc. rewrite Hpc.
+  unfold ast_att_chan. rewrite Ex, Hc. reflexivity.
+Qed.
